@@ -58,3 +58,21 @@ package plugin
 // The generated encoder reads the request and writes nothing (assumed).
 //@ func (p *Request) FastAppend(b []byte) []byte
 //@   trusted
+
+// Assumed contracts of the plugin interfaces: a response object is returned; its files are new objects; the
+// generator's own state is not touched.
+//@ extern (Plugin) Name
+//@ extern (Plugin) Execute
+//@   ensures result != nil
+//@   ensures forall a int :: 0 <= a && a < len(result.Contents) ==> result.Contents[a] != nil && fresh(result.Contents[a])
+//@   ensures forall a, b int :: 0 <= a && a < b && b < len(result.Contents) ==> result.Contents[a] != result.Contents[b]
+//@ extern (SDKPlugin) GetName
+//@ extern (SDKPlugin) GetPluginParameters
+//@ extern (SDKPlugin) Invoke
+//@   ensures result != nil
+//@   ensures forall a int :: 0 <= a && a < len(result.Contents) ==> result.Contents[a] != nil && fresh(result.Contents[a])
+//@   ensures forall a, b int :: 0 <= a && a < b && b < len(result.Contents) ==> result.Contents[a] != result.Contents[b]
+
+//@ func Lookup(arg string) (Plugin, error)
+//@   trusted
+//@   ensures result1 == nil ==> result0 != nil
